@@ -12,3 +12,9 @@ rc=0
 for p in $prop "$@"; do
   /verif/bin/gowp check -repo "$tmp/repo" -verif "$tmp/verif" -prop $p -tier quick 2>&1 | grep "VIOLATION\|KNOWN\|^property" | sed "s|$tmp|TMP|g" | cut -c1-220
 done
+for f in "$tmp"/verif/replay/*/*.json; do [ -f "$f" ] && python3 -c "
+import json,sys
+d=json.load(open('$f'))
+r=d.get('replay',{})
+print('  replay', d.get('obligation'), 'confirmed=',d.get('confirmed'), 'status=',r.get('status'), 'inputs=',json.dumps(r.get('inputs'))[:200] if r.get('inputs') else r.get('reason','')[:120], 'observed=',r.get('observed_outputs'))
+"; done
